@@ -168,6 +168,24 @@ class Scan:
                 except AnalysisError as exc:
                     self.errors[q] = str(exc)
 
+        # an extracted helper that is analysed in place at its call sites is part of its callers: it is not a
+        # separate actor for who-may-write / who-may-call rules (unless it is also passed around as a value)
+        from .sym import baseline_functions, _strip_at
+        inlined, as_value = set(), set()
+        for ps in self.paths.values():
+            for p in ps:
+                for e in p.events:
+                    if e.kind == "call" and e.inlined:
+                        for f in e.targets:
+                            inlined.add(f.qual)
+                    for tm in list(e.args or ()) + [v for _, v in (e.kwargs or ())] + ([e.cb] if e.cb is not None else []) + \
+                            ([e.value] if isinstance(e.value, tuple) else []):
+                        if isinstance(tm, tuple):
+                            for s_ in subterms(tm):
+                                if s_[0] in ("bound", "func") and isinstance(s_[-1], str):
+                                    as_value.add(s_[-1])
+        self.absorbed = {q for q in inlined if _strip_at(q) not in baseline_functions() and q not in as_value}
+
     def events(self, qual: str, recv: t.Optional[str] = None) -> t.List[Event]:
         fi = self.prog.func(qual)
         if recv is None and fi.cls is not None and fi.kind in ("method", "classmethod", "property"):
@@ -176,6 +194,8 @@ class Scan:
 
     def all(self) -> t.Iterator[t.Tuple[FuncInfo, t.Optional[str], Event]]:
         for (q, r), ps in self.paths.items():
+            if q in self.absorbed:
+                continue
             fi = self.prog.functions[q]
             for e in all_events(ps):
                 yield fi, r, e
